@@ -1,2 +1,121 @@
-(* C02 - stage 1: theorems about the ideal object (placeholder, filled below). *)
-From LV Require Import Cont.ContSpec.
+(* C02 - every list implementation is the same abstract sequence (incl. iterators).
+   STAGE 1: theorems about the ideal object (Cont/ContSpec.v: list_step over list (option elem),
+   None = NULL placeholder made by insert_at), proved for ALL histories and ALL index values.
+   The correspondence check ties array, linked_list and dlinked_list to this object (return
+   values, get(i) for i in -len-1..len and a fresh iterator after every operation).  Stage 2 adds
+   per class the refinement theorem (pointer-level model = this spec, links well formed, frame),
+   from which "the three classes are observationally interchangeable" is a corollary.
+   This file holds only statements, each closed by `exact`, and Print Assumptions. *)
+From LV Require Import Cont.ContSpec Cont.ContKey Cont.ListProofs.
+From Coq Require Import Sorting.Permutation.
+Local Open Scope Z_scope.
+
+(* an iterator yields every element exactly once, in order, and reports exhaustion exactly after
+   count elements (also for vector and map iterators: any element type) *)
+Theorem C02_iterator_sweep_exact : forall A (xs : list A) fuel,
+  (length xs <= fuel)%nat -> it_sweep fuel (it_new xs) = (xs, true).
+Proof. exact it_sweep_exact. Qed.
+Print Assumptions C02_iterator_sweep_exact.
+
+Theorem C02_iterator_not_exhausted_early : forall A (xs : list A) fuel,
+  (fuel < length xs)%nat -> it_sweep fuel (it_new xs) = (firstn fuel xs, false).
+Proof. exact it_sweep_short. Qed.
+Print Assumptions C02_iterator_not_exhausted_early.
+
+Theorem C02_iterator_has_next_iff : forall A k (xs : list A),
+  it_has_next (it_after k (it_new xs)) = (k <? length xs)%nat.
+Proof. exact it_has_next_after. Qed.
+Print Assumptions C02_iterator_has_next_iff.
+
+Theorem C02_iterator_kth_next : forall A k (xs : list A),
+  fst (it_next (it_after k (it_new xs))) = nth_error xs k.
+Proof. exact it_next_after. Qed.
+Print Assumptions C02_iterator_kth_next.
+
+Theorem C02_iterate_and_to_array : forall xs,
+  list_step xs LIterate = (xs, OElems xs) /\ list_step xs LToArray = (xs, OElems xs) /\
+  (forall k, it_has_next (it_after k (it_new xs)) = (k <? length xs)%nat) /\
+  (forall k, fst (it_next (it_after k (it_new xs))) = nth_error xs k).
+Proof. exact list_iterate_exact. Qed.
+Print Assumptions C02_iterate_and_to_array.
+
+(* positions that normalise below zero are refused without change *)
+Theorem C02_insert_at_refused_below_zero : forall xs idx e, norm_idx (llen xs) idx < 0 ->
+  list_step xs (LInsertAt idx e) = (xs, OBool false).
+Proof. exact insert_at_refused. Qed.
+Print Assumptions C02_insert_at_refused_below_zero.
+
+(* every other position is accepted: the element lands exactly there, earlier elements keep their
+   place, later ones move up by one, and positions past the end are padded with NULL placeholders *)
+Theorem C02_insert_at_exact : forall xs idx e, 0 <= norm_idx (llen xs) idx ->
+  let n := Z.to_nat (norm_idx (llen xs) idx) in
+  list_step xs (LInsertAt idx e) = (ins_at n e xs, OBool true) /\
+  nth_error (ins_at n e xs) n = Some (Some e) /\
+  length (ins_at n e xs) = S (Nat.max n (length xs)) /\
+  ((n <= length xs)%nat -> ins_at n e xs = firstn n xs ++ Some e :: skipn n xs) /\
+  ((length xs < n)%nat -> ins_at n e xs = xs ++ repeat None (n - length xs) ++ [Some e]).
+Proof. exact insert_at_done. Qed.
+Print Assumptions C02_insert_at_exact.
+
+(* get and remove_at are refused below zero and at or past the length, without change *)
+Theorem C02_get_remove_at_refused : forall xs idx, ~ (0 <= norm_idx (llen xs) idx < llen xs) ->
+  list_step xs (LGet idx) = (xs, OElem None) /\ list_step xs (LRemoveAt idx) = (xs, OElem None).
+Proof. exact get_refused. Qed.
+Print Assumptions C02_get_remove_at_refused.
+
+Theorem C02_get_remove_at_exact : forall xs idx, 0 <= norm_idx (llen xs) idx < llen xs ->
+  let n := Z.to_nat (norm_idx (llen xs) idx) in
+  exists s, nth_error xs n = Some s /\
+    list_step xs (LGet idx) = (xs, OElem s) /\
+    list_step xs (LRemoveAt idx) = (firstn n xs ++ skipn (S n) xs, OElem s).
+Proof. exact get_done. Qed.
+Print Assumptions C02_get_remove_at_exact.
+
+(* find / contains / index / remove agree on the element that is "equal by comparison": the first
+   one with the probe's key; remove hands back that stored element and takes out exactly it *)
+Theorem C02_find_index_contains_remove : forall xs p,
+  match l_find xs (ekey p) with
+  | Some x =>
+    exists l1 l2, xs = l1 ++ Some x :: l2 /\ ekey x = ekey p /\
+      (forall s, In s l1 -> eq_slot (ekey p) s = false) /\
+      snd (list_step xs (LFind (Some p))) = OElem (Some x) /\
+      snd (list_step xs (LIndex p)) = OInt (Z.of_nat (length l1)) /\
+      snd (list_step xs (LContains (Some p))) = OBool true /\
+      list_step xs (LRemove (Some p)) = (l1 ++ l2, OElem (Some x))
+  | None =>
+    (forall s, In s xs -> eq_slot (ekey p) s = false) /\
+    snd (list_step xs (LFind (Some p))) = OElem None /\
+    snd (list_step xs (LIndex p)) = OInt (-1) /\
+    snd (list_step xs (LContains (Some p))) = OBool false /\
+    list_step xs (LRemove (Some p)) = (xs, OElem None)
+  end.
+Proof. exact find_index_remove_agree. Qed.
+Print Assumptions C02_find_index_contains_remove.
+
+Theorem C02_reverse_twice : forall xs, final list_step xs [LReverse; LReverse] = xs.
+Proof. exact list_reverse_twice. Qed.
+Print Assumptions C02_reverse_twice.
+
+(* conservation over every history: what the list holds plus what it handed back (remove,
+   remove_at) is exactly what went in (append, prepend, insert, accepted insert_at) *)
+Theorem C02_nothing_lost_nothing_invented : forall ops,
+  Permutation (somes (final list_step [] ops) ++ l_handed [] ops) (l_inserted [] ops).
+Proof. exact list_contents. Qed.
+Print Assumptions C02_nothing_lost_nothing_invented.
+
+Theorem C02_no_element_twice : forall ops, NoDup (map eid (l_inserted [] ops)) ->
+  NoDup (map eid (somes (final list_step [] ops))).
+Proof. exact list_nodup. Qed.
+Print Assumptions C02_no_element_twice.
+
+(* non-vacuity *)
+Definition ka : key := [97]. Definition kb : key := [98]. Definition kc : key := [99].
+Example C02_ex_run :
+  list_run [] [LAppend (mkElem 0 ka); LInsertAt 3 (mkElem 1 kb); LInsertAt (-5) (mkElem 2 kc);
+               LInsertAt (-4) (mkElem 3 kc); LRemoveAt (-1); LGet 5; LReverse; LIndex (mkElem 4 ka); LDup] =
+  ([None; None; Some (mkElem 0 ka); Some (mkElem 3 kc)],
+   [OBool true; OBool true; OBool false; OBool true; OElem (Some (mkElem 1 kb)); OElem None; OBool true; OInt 2;
+    ODup 4 [None; None; Some ka; Some kc] [None; None; Some ka; Some kc]]).
+Proof. vm_compute. reflexivity. Qed.
+Example C02_ex_refusal : norm_idx (llen [Some (mkElem 0 ka); None]) (-3) < 0.
+Proof. vm_compute. reflexivity. Qed.
